@@ -240,21 +240,21 @@ pub fn gen_world(rng: &mut Rng, p: &WorldParams) -> WorldSpec {
 
     }
     // rarely: links whose body has exactly the longest length the kernel stores (PATH_MAX-1) and
-    // one byte less, leading to an existing entry
-    if rng.chance(1, 30) && !existing.is_empty() {
-        let tgt = rng.pick(&existing).0.clone();
+    // one byte less. The body is made of a few 255-byte names (so that walking it takes a handful
+    // of steps, not thousands) and leads nowhere: what matters is that the body can be *read*
+    if rng.chance(1, 30) {
         for (k, len) in [(0usize, 4095usize), (1, 4094)] {
-            if tgt.len() + 4 < len {
-                let pad = len - tgt.len();
-                let mut body = "./".repeat(pad / 2);
-                if pad % 2 == 1 {
-                    body.push('/');
-                }
-                body.push_str(&tgt);
-                let name = format!("root/longlink{k}");
-                if !spec.has(&name) {
-                    spec.push(Entry::link(&name, &body));
-                }
+            let mut body = String::new();
+            while body.len() + 256 <= len {
+                body.push_str(&"L".repeat(255));
+                body.push('/');
+            }
+            while body.len() < len {
+                body.push('t');
+            }
+            let name = format!("root/longlink{k}");
+            if !spec.has(&name) {
+                spec.push(Entry::link(&name, &body));
             }
         }
     }
